@@ -229,6 +229,10 @@ V("C01", "shared-default-settings", "fire", "C01.R14", "default modifier setting
 V("C01", "module-default-settings-copied", "silent", "", "module-level default modifier settings, deep-copied per configuration",
   ("src/pyhf/pdf.py", '__all__ = ["Model", "_ModelConfig"]\n', '__all__ = ["Model", "_ModelConfig"]\n\n_DEFAULT_MODIFIER_SETTINGS = {\n    \'normsys\': {\'interpcode\': \'code4\'},\n    \'histosys\': {\'interpcode\': \'code4p\'},\n}\n'),
   ("src/pyhf/pdf.py", "        default_modifier_settings = {\n            'normsys': {'interpcode': 'code4'},\n            'histosys': {'interpcode': 'code4p'},\n        }\n\n        self.modifier_settings = config_kwargs.pop(\n            'modifier_settings', default_modifier_settings\n        )\n", "        self.modifier_settings = config_kwargs.pop('modifier_settings', None)\n        if self.modifier_settings is None:\n            self.modifier_settings = copy.deepcopy(_DEFAULT_MODIFIER_SETTINGS)\n"))
+V("C01", "clip-floors-swapped", "fire", "C01.R12", "clipping options packed as (sample, bin) by Model and unpacked as (bin, sample) by the main model",
+  ("src/pyhf/pdf.py", '        clip_sample_data: Union[float, None] = None,\n        clip_bin_data: Union[float, None] = None,\n    ):\n        default_backend = pyhf.default_backend\n', '        clip_floors=(None, None),\n    ):\n        default_backend = pyhf.default_backend\n'), ("src/pyhf/pdf.py", '        self.clip_sample_data = clip_sample_data\n        self.clip_bin_data = clip_bin_data\n', '        self.clip_bin_data, self.clip_sample_data = clip_floors\n'), ("src/pyhf/pdf.py", '            batch_size=self.batch_size,\n            clip_sample_data=clip_sample_data,\n            clip_bin_data=clip_bin_data,\n        )\n', '            batch_size=self.batch_size,\n            clip_floors=(clip_sample_data, clip_bin_data),\n        )\n'))
+V("C01", "clip-floors-tuple", "silent", "", "clipping options travel as one tuple, packed and unpacked in the same order",
+  ("src/pyhf/pdf.py", '        clip_sample_data: Union[float, None] = None,\n        clip_bin_data: Union[float, None] = None,\n    ):\n        default_backend = pyhf.default_backend\n', '        clip_floors=(None, None),\n    ):\n        default_backend = pyhf.default_backend\n'), ("src/pyhf/pdf.py", '        self.clip_sample_data = clip_sample_data\n        self.clip_bin_data = clip_bin_data\n', '        self.clip_sample_data, self.clip_bin_data = clip_floors\n'), ("src/pyhf/pdf.py", '            batch_size=self.batch_size,\n            clip_sample_data=clip_sample_data,\n            clip_bin_data=clip_bin_data,\n        )\n', '            batch_size=self.batch_size,\n            clip_floors=(clip_sample_data, clip_bin_data),\n        )\n'))
 
 # ------------------------------------------------------------------ C08
 INF = "src/pyhf/infer/__init__.py"
